@@ -176,6 +176,11 @@ func (r *runner) applyPre(pre string) {
 				panic(err)
 			}
 		}
+		// fees in a second denomination reach the validators too: the contracts' pending rewards are
+		// in two denominations
+		if err := w.App.BankKeeper.SendCoinsFromAccountToModule(ctx, S, authtypes.FeeCollectorName, sdk.NewCoins(sdk.NewInt64Coin("atest", 5000000))); err != nil {
+			panic(err)
+		}
 		w.VirtualNextBlock(6*time.Second, nil, nil)
 		w.VirtualNextBlock(6*time.Second, nil, nil)
 	case "no-rewards":
